@@ -90,9 +90,9 @@ def replay(reqs, fib, ref):
 class Prop:
     pid = 'C20'
     props_file = 'Props/C20.v'
-    required_theorems = ['fib_replay_eq_ecmp_of_best', 'vrf_fib_replay_eq_ecmp_of_best', 'nht_refcount_eq_paths', 'fib_replay_eq_ecmp_of_best_legacy_refuted', 'vrf_fib_replay_eq_ecmp_of_best_legacy_refuted',
+    required_theorems = ['fib_replay_eq_ecmp_of_best', 'vrf_fib_replay_eq_ecmp_of_best', 'nht_refcount_eq_paths', 'kernel_watched_count_is_replay', 'fib_replay_eq_ecmp_of_best_legacy_refuted', 'vrf_fib_replay_eq_ecmp_of_best_legacy_refuted',
                          'unreachable_nexthop_excluded']
-    correspondence_name = ('Model/Fib.v step vs daemon/src/table_manager.rs TableManager (insert_route, remove_route, drop_families, '
+    correspondence_name = ('Model/Fib.v svc_run vs kernel/src/lib.rs run_service_loop (harness/hx-kernel, real rtnetlink socket); Model/Fib.v step vs daemon/src/table_manager.rs TableManager (insert_route, remove_route, drop_families, '
                            'unregister_peer, drop_stale_families, mark_llgr_stale, drop_llgr_stale_families, update_nexthop_validity, '
                            'soft_reset_in) with a capturing kernel::KernelHandle (harness/daemon/table_manager_hx.rs verif_fib_cases)')
     rule = ('a case is a history of <= 28 operations; non-trivial when some FIB request carries >= 2 next hops or a withdrawal follows an '
@@ -103,9 +103,9 @@ class Prop:
         'attribute-block identity, rank class, LLGR_STALE/NO_LLGR bits, route targets, filtered, next-hop-invalid); RibEntry::cmp is its '
         'projection on (llgr-stale, rank class, iBGP, stale, router id) with the rank class realised by LOCAL_PREF/AS_PATH length/ORIGIN '
         '(the comparator itself is property C02)',
-        'C20: the reference counts of kernel/src/lib.rs run_service_loop (needs a netlink socket) are modelled from the source (Spec/FibSpec.v '
-        'ref_replay) and applied to the captured request stream; Handle::apply is modelled as "replace the next-hop set of (table, prefix); '
-        'empty = withdraw; VPN NLRI ignored"; netlink itself is outside the model',
+        'C20: the reference counts of kernel/src/lib.rs run_service_loop are modelled (Model/Fib.v svc_run, proved equal to Spec ref_replay) and tied by '
+        'harness/hx-kernel, which starts the real KernelService on an rtnetlink socket and observes the NexthopUpdate emitted when an address becomes watched; '
+        'Handle::apply is modelled as "replace the next-hop set of (table, prefix); empty = withdraw; VPN NLRI ignored"; netlink and lookup_route are outside the model',
         'C20: hash-map iteration order (destinations, VRFs, shards) is not modelled; requests are compared per key (prefix / address) in order',
     ]
     assumptions = [
@@ -117,9 +117,13 @@ class Prop:
 
     # ---- rendering
     def case_to_val(self, c):
+        if c.get('kind') == 'ref':
+            return c['reqs']
         return [cfg_to_val(c['cfg']), c['shards'], [op_to_val(o) for o in c['ops']]]
 
     def case_to_coq(self, c):
+        if c.get('kind') == 'ref':
+            return 'run_ref %s' % clist(['(%s %s)' % ('Reg' if r[0] == 1 else 'Unreg', cN(r[1])) for r in c['reqs']])
         return 'run_case %s %s %s' % (os.environ.get('VERIF_C20_VARIANT', 'Fixed'), cfg_to_coq(c['cfg']),
                                       clist([op_to_coq(o) for o in c['ops']]))
 
@@ -128,6 +132,8 @@ class Prop:
 
     def case_from_json(self, j):
         c = dict(j)
+        if j.get('kind') == 'ref':
+            return c
         ops = []
         for o in j['ops']:
             o = list(o)
@@ -203,18 +209,39 @@ class Prop:
                 # soft reset after a policy change, the path that re-registers next hops
                 ops += [('pol', rng.choice([1, 2, 3])), ('reset', rng.choice([1, 2, 3])), ('pol', 0), ('reset', rng.choice([1, 2]))]
             cases.append(dict(cfg=mk_cfg(k % 6), shards=1 + (k % 3), ops=ops))
+        # request sequences for the reference counts of the kernel service task
+        # (balanced, over-released and re-registered addresses; counts 0..3)
+        nref = 200 if tier == 'quick' else 495
+        for k in range(nref):
+            ln = rng.choice([1, 2, 3, 5, 8, 12, 16])
+            reqs = [[rng.choice([1, 1, 2]) if rng.random() < 0.6 else rng.choice([1, 2, 2]), rng.choice([1, 1, 2, 3])] for _ in range(ln)]
+            cases.append(dict(kind='ref', reqs=reqs))
         return cases
 
     # ---- running
     def run_impl(self, cases, tier):
-        return rustrun.daemon_test('C20', 'table_manager::verif_hx::verif_fib_cases', [self.case_to_val(c) for c in cases])
+        hist = [k for k, c in enumerate(cases) if c.get('kind') != 'ref']
+        refs = [k for k, c in enumerate(cases) if c.get('kind') == 'ref']
+        out = [None] * len(cases)
+        a, err = rustrun.daemon_test('C20', 'table_manager::verif_hx::verif_fib_cases', [self.case_to_val(cases[k]) for k in hist])
+        if a is None:
+            return None, err
+        for k, o in zip(hist, a):
+            out[k] = o
+        if refs:
+            b, err = rustrun.crate_bin('C20k', 'hx-kernel', '', [self.case_to_val(cases[k]) for k in refs])
+            if b is None:
+                return None, 'hx-kernel (real KernelService on a netlink socket): ' + err
+            for k, o in zip(refs, b):
+                out[k] = o
+        return out, ''
 
     def run_model(self, cases, tier):
         pre = 'From RB Require Import Base.Val Model.Fib.\nOpen Scope N_scope.'
         return coqrun.eval_terms('C20', pre, [self.case_to_coq(c) for c in cases])
 
     def canon(self, case, obs):
-        if obs == [-1]:
+        if obs == [-1] or case.get('kind') == 'ref':
             return obs
         out = []
         for reqs, view in obs:
@@ -228,6 +255,20 @@ class Prop:
 
     # ---- Spec oracle (python mirror of Spec/FibSpec.v), on the implementation's observations
     def oracle(self, c, obs):
+        if c.get('kind') == 'ref':
+            # the documented contract of register_nexthop / unregister_nexthop: reference counted,
+            # an initial NexthopUpdate when an address becomes watched, no longer watched at zero
+            if obs == [-1]:
+                return 'the kernel service did not answer'
+            cnt, want = {}, []
+            for t, a in c['reqs']:
+                if t == 1:
+                    cnt[a] = cnt.get(a, 0) + 1
+                    if cnt[a] == 1:
+                        want.append(a)
+                elif cnt.get(a, 0) > 0:
+                    cnt[a] -= 1
+            return None if obs == want else 'kernel service announced %s for the requests %s, the reference counts demand %s' % (obs, c['reqs'], want)
         if obs == [-1]:
             return 'panic'
         cfg = c['cfg']
@@ -293,6 +334,8 @@ class Prop:
         return False
 
     def nontrivial_key(self, c, obs):
+        if c.get('kind') == 'ref':
+            return ('ref', json.dumps(c['reqs'])) if obs != [-1] and len(obs) >= 2 else None
         if obs == [-1]:
             return None
         fl = [tuple(map(str, r)) for reqs, _ in self.canon(c, obs) for r in reqs]
@@ -311,6 +354,8 @@ class Prop:
         return None
 
     def classify(self, c, obs):
+        if c.get('kind') == 'ref':
+            return ['kernel_refcount_sequence']
         tags = ['len_%s' % ('1-4' if len(c['ops']) <= 4 else '5-12' if len(c['ops']) <= 12 else '13+'), 'shards_%d' % c['shards']]
         for o in c['ops']:
             tags.append('op_' + o[0])
